@@ -176,21 +176,6 @@ def classify_c14(what, v, recipe):
     return None
 
 
-def classify_c11(history, at, ev, trace):
-    """A19: Router.compile_program rewinds the slot-id counter after every call while the method declarations it cached
-    keep the slots of the first compilation, so compiling the same Router object again (same or other version) can
-    number slots differently.  Recognised by its trigger: a compile of the router kind that is NOT the first
-    compilation of that router instance in the history (the first one must equal the fresh-process result)."""
-    if ev["act"] == "compile" and ev["p"] == "router" and ev["marker_none"] == 1 and ev["cls"] in ("teal", "teal-differs-on-recompile"):
-        if ev["cls"] == "teal-differs-on-recompile" and ev["same"] == 1:
-            return "A19/router-recompile-renumbers-slots"          # first compile equals fresh, the immediate re-compile differs
-        last_build = max((j for j in range(at) if trace[j]["act"] == "build" and trace[j]["p"] == "router"), default=-1)
-        earlier = [j for j in range(last_build + 1, at) if trace[j]["act"] == "compile" and trace[j]["p"] == "router"]
-        if earlier and ev["same"] == 0:
-            return "A19/router-recompile-renumbers-slots"
-    return None
-
-
 def classify_c05(prog, text, pc, why):
     """A3 (optimiser deletes every store of a cancelled slot) shows up statically as a height mismatch / wrong retsub height
     in texts compiled with slot optimisation; recognised by the same trigger as for C01/C03."""
